@@ -2,5 +2,5 @@
 # run every registered quick check on the current tree; summary lines only
 cd /verif
 for id in $(python3 -c "import sys; sys.path.insert(0,'tools'); import registry; print(' '.join(sorted(registry.CHECKS)))"); do
-  timeout 1800 python3 tools/check.py $id --tier ${1:-quick} 2>&1 | grep -E "^(VIOLATION|C[0-9]+ tier)" | cut -c1-260
+  timeout ${VERIF_CHECK_TIMEOUT:-1800} python3 tools/check.py $id --tier ${1:-quick} 2>&1 | grep -E "^(VIOLATION|C[0-9]+ tier)" | cut -c1-260
 done
